@@ -42,6 +42,21 @@ CONSTS = [0, 7, -3, 2.5, 1e300, -1e-300, 123456789012345678, True, False, DT(202
           '=A1048577', '=RC[-1]', '=SUM(A:A)', '=SUM(1:1)', '=A1 B1', '=(A1,B1)', '=-', '=+', '=%', '=1%%', '=""""', '="a""b"',
           ('$array', '=SUM(A1:A2*2)'), ('$array', '=A1:A2')]
 
+# references that cannot exist (column beyond ZZZ / XFD, row 0, row beyond the sheet, unknown sheet) in every position that
+# takes a reference
+ODD_REFS = ['AAAA1', '$AAAA$1', 'AAAA1:AAAA2', 'A1:AAAA1', 'AAAA:AAAA', 'A:AAAA', 'A0', 'A1:A0', 'XFE1', 'A1048577', "'D'!AAAA1",
+            'Nope!A1', "'No pe'!A1:B2", 'ZZZ1', 'a1', 'A1:a2', '$A$0',
+            # areas where a position may expect one value, several areas, areas joined with &
+            'A1:A2', 'A:A', 'A1:B2', 'A1:A2,B1:B2', 'A1:A2&B1:B2', 'A1:A2&B1:B2&A1:A2', '(A1:A2)', 'A1:A2&"x"', 'D!A:B']
+REF_POSITIONS = ['={r}', '=SUM({r})', '=COLUMN({r})', '=INDEX({r},1)', '=INDEX({r},1,1)', '=INDEX(A1:A2,{r})', '=MATCH(1,{r},0)',
+                 '=MATCH({r},A1:A3,0)', '=XMATCH(1,{r})', '=VLOOKUP(1,{r},1,0)', '=VLOOKUP({r},A1:B3,2,0)', '=SUMIF({r},1)',
+                 '=SUMIF(A1:A2,1,{r})', '=SUMIF(A1:A2,{r})', '=SUMIFS({r},{r},1)', '=SUMIFS(A1:A2,{r},1)', '=COUNTIFS({r},1)',
+                 '=AVERAGEIFS({r},{r},1)', '=COUNT({r})', '=COUNTBLANK({r})', '=MIN({r})', '=MAX({r},1)', '=AVERAGE({r})', '=AND({r})',
+                 '=OR({r},TRUE)', '=IF({r}>1,1,2)', '=IF(TRUE,{r},2)', '=IFS(TRUE,{r})', '=IFERROR({r},1)', '=LEFT({r},1)', '=RIGHT("ab",{r})',
+                 '=MID({r},1,1)', '=NETWORKDAYS({r},{r},{r})', '=YEAR({r})', '=DATE({r},1,1)', '=ROUND({r},1)', '=ROUNDUP(1.5,{r})',
+                 '=ADDRESS(1,{r})', '={r}&"x"', '=-{r}%', '=CONCATENATE({r},1)', '=VALUE({r})', '=SEARCH("a",{r})', '=EDATE({r},1)',
+                 '=EOMONTH({r},1)', '=DATEDIF({r},{r},"D")', '=DAY({r})', '=MONTH({r})', '=1+{r}*2', '={r}={r}']
+
 _TMP = None
 
 
@@ -393,6 +408,9 @@ def plan(tier, seed):
             yield {'v': D.enc(list(v) if isinstance(v, tuple) else v), 'shape': 'constant-or-odd-formula'}
             if isinstance(v, str):
                 yield {'v': v, 'shape': 'odd-formula-next-to-good', 'also': '=SUM(A1:A3)'}
+        for pos in REF_POSITIONS:
+            for r in ODD_REFS:
+                yield {'v': pos.format(r=r), 'shape': 'odd-reference:' + pos.split('(')[0].lstrip('=')[:12]}
 
     def strings():
         for s in ('\U0001F4CA', 'a\U00020000b', '\u00e9', '\u2028x', '\ufeff', 'tab\there', '\x7f', '\u0085', '\\N{BULLET}', '\\x41', '\\u0041'):
